@@ -125,6 +125,9 @@ def build_workload(rng):
                 ["Rec", {"c": [["cur", {"s": rng.choice(curs)}], ["lvl", {"n": rng.choice(lvls)}], ["free", {"s": rng.choice(txts)}]]}]]
         calls.append([0, "Typed", tinp])
         calls.append([0, "TypedOut", tinp])
+    # more distinct arguments for the numeric built-ins than a small memo or pool would hold (they recur in every phase)
+    for k in range(30):
+        calls.append([0, "Numeric", [["Num", {"n": str(rng.randint(1, 10 ** 6)) + "." + str(rng.randint(0, 999))}]]])
     # generated graphs: nested decisions + BKMs + services + tables (read locks nest several levels deep)
     for k, shape in enumerate(["mixed", "service-and-direct", "bkm-chain"]):
         m = None
